@@ -1252,3 +1252,54 @@ def option_packs(ctx, world):
                 else:
                     ctx.ob("A6.optpack", inst, True, loc_of(m, fnode))
     ctx.floor("A6.optpack (wrapper, pack, path) instances", n, 2)
+
+
+def rank_guards(ctx, world):
+    """A6.guardarg - a rule that only supports some ranks of its argument says so with a raising guard.  For the
+    functions whose result does not always have the argument's rank (sort / partition / cumsum / repeat / take ...
+    flatten when axis=None: facts/axis_none_flattens.json) a guard that reads the rank or shape of the ANSWER instead of
+    the argument does not cover the flattened configuration: the answer is 1-D there whatever the argument's rank."""
+    from ..terms import walk as _walk
+
+    fx = facts.load("axis_none_flattens")
+    flat_result = set(fx["flattens"]) - set(fx["shape_preserving"])
+    ctx.describe("A6.guardarg", "in the rules of NumPy functions whose result is flattened when axis=None (sort, partition, cumsum, repeat, take, ...), every raising guard on a rank / shape reads the rank / shape of an ARGUMENT, never only of the answer (which is 1-D on the flattened path for every argument rank)")
+
+    def rank_reads(c):
+        """(reads an argument's rank/shape, reads the answer's rank/shape) inside a condition"""
+        on_arg = on_ans = False
+        for t in _walk(c):
+            tgt = None
+            if t.op == "attr" and t.name in ("ndim", "shape"):
+                tgt = t.obj
+            elif t.op == "call" and len(t.args) == 1:
+                r, _ = resolve_callee(world.ev, t)
+                if r is not None and is_numpy_callable(r) and base_name(r) in ("ndim", "shape"):
+                    tgt = t.args[0]
+            if tgt is None:
+                continue
+            if tgt.op == "arg":
+                on_arg = True
+            if tgt.op == "sym" and tgt.get("role") == "ans":
+                on_ans = True
+        return on_arg, on_ans
+
+    n = 0
+    for e in world.table.entries:
+        if e.spec != "maker" or not world.in_numpy_scope(e) or not is_numpy_callable(e.prim) or base_name(e.prim) not in flat_result:
+            continue
+        ir = world.ir(e)
+        if ir is None or not ir.ok:
+            continue
+        for key, pol, t in guards_of(world, ir):
+            cond = t.cond
+            on_arg, on_ans = rank_reads(cond)
+            if not (on_arg or on_ans):
+                continue
+            n += 1
+            inst = f"{construct_of(e)}|{key[:50]}"
+            if on_ans and not on_arg:
+                ctx.fail("A6.guardarg", inst, f"{e.mode}:{e.prim_id}|guard-on-answer", e.loc, f"the guard `{key[:70]}` reads the rank / shape of the answer only: {base_name(e.prim)}(x, axis=None) flattens, so the answer is 1-D for every rank of x and the guard never fires there", f"{base_name(e.prim)} of an array with ndim >= 2 called with axis=None")
+            else:
+                ctx.ob("A6.guardarg", inst, True, e.loc)
+    ctx.floor("A6.guardarg rank guards in rules of flattening functions", n, 2)
